@@ -143,7 +143,7 @@ def unfrac(values):
 
 def documented_names(desc):
     """Rename object leaves gK to the documented <species>_<id> convention (x_K): the drawing code splits leaf names at '_'."""
-    mp = {l: "x_" + l[1:] for l in desc["leafmap"]}
+    mp = {l: f"x_{i}" for i, l in enumerate(sorted(desc["leafmap"]))}
 
     def ren(t):
         return mp[t] if isinstance(t, str) else tuple(ren(c) for c in t)
